@@ -771,6 +771,20 @@ macro_rules! visit_x_tokens {
                 write!(s, " x_reparse={} x_revisit={} x_selfvisit={} x_lenm={}", ok1 as u8, ok2 as u8, ok3 as u8, Visit::len(p.parsed())).unwrap();
             }
         }
+        if $brk >= 0 {
+            // self_visit under the same Break policy: the object comes from a plain parse of the same input; visiting it
+            // through self_visit must end like visiting its bytes directly (same result kind, same callbacks), in
+            // particular a Break is reported as VisitBreak and nothing is delivered after it (C09 through C15's API)
+            if let Ok(p0) = <$ty as Parse>::parse(inp) {
+                let obj = p0.parsed().clone();
+                let view: &[u8] = p0.parsed().as_ref();
+                let mut rd = Rec::new(inp, $brk, false);
+                let direct = <$ty as Visit>::visit(view, &mut rd).map(|_| ());
+                let mut rs = Rec::new(inp, $brk, false);
+                let viaself = obj.self_visit(&mut rs).map(|_| ());
+                write!(s, " x_selfbrk={}", (direct == viaself && rd.toks == rs.toks) as u8).unwrap();
+            }
+        }
         // allocation count with a visitor that does not allocate itself (same break policy)
         let mut q = Quiet { brk: $brk, nb: 0, sink: 0 };
         let (_r, allocs) = count_allocs(|| { let r = <$ty as Visit>::visit(inp, &mut q); r.is_ok() });
@@ -1089,7 +1103,16 @@ fn run_block(inp: &[u8], brk: i64) -> String {
             let mut why = String::new();
             let mut ids: Vec<bitcoin::Txid> = b.txdata.iter().map(|t| t.compute_txid()).collect();
             ids.push(bitcoin::Txid::from_byte_array([0x5a; 32]));
-            for id in ids.iter().take(40).chain(ids.last()) {
+            // ids that are NOT transaction ids of this block although they are hashes of its data: the wtxid of every
+            // segwit transaction, the merkle root and the block hash (unless one happens to equal a txid)
+            let mut decoys: Vec<bitcoin::Txid> = b.txdata.iter().take(8).map(|t| bitcoin::Txid::from_byte_array(t.compute_wtxid().to_byte_array())).collect();
+            decoys.push(bitcoin::Txid::from_byte_array(b.header.merkle_root.to_byte_array()));
+            decoys.push(bitcoin::Txid::from_byte_array(b.block_hash().to_byte_array()));
+            for d in decoys {
+                if !ids.contains(&d) { ids.push(d); }
+            }
+            let ntx = b.txdata.len();
+            for id in ids.iter().take(40).chain(ids.iter().skip(ntx.max(40))) {
                 let first = b.txdata.iter().position(|t| t.compute_txid() == *id);
                 let mut fw = FindWrap { inner: bsl::FindTransaction::new(*id), calls: 0 };
                 let res = bsl::Block::visit(view, &mut fw);
